@@ -40,7 +40,7 @@ MASK = 0xFFFFFFFF
 # special to make or sh (C01/C04's subject).
 DIR_POOL = ['', 'lib', 'lib/sub', 'lib/sub/deeper', 'out/deep/nest/still',
             'bin', 'bin/tools', 'pkg.d/v1.2', 'x-y/z_w', 'plus+dir/libs',
-            'lib64', 'out', 'bin/tools/extra', 'third/party/inner']
+            'lib64', 'out', 'bin/tools/extra', 'third/party/inner', 'lib-x', 'bin2', 'out/dee']
 SRC_DIR_POOL = ['', 'src', 'src/core', 'source/tree/deep', 'mods']
 LIB_WORDS = ['core', 'util', 'net', 'gfx', 'base', 'math', 'text', 'codec',
              'store', 'proto', 'queue', 'audio', 'io.v2', 'my-lib', 'name_x',
@@ -385,6 +385,18 @@ def directed_dags(sysm):
         _lib(3, 'library', 'x-y/z_w/n3dual', [2], fcalls=[(2, 2, 'f')], gcalls=[(2, 2, 'g')]),
         _exe(4, 'bin/prog4', [0, 1, 2], [(2, 2, 'f'), (2, 2, 'g')]),
         _exe(5, 'out/tool5', [1, 3, 2], [(3, 3, 'f')], lang='c++'),
+    ]))
+    # D13: binaries and the shared libraries they load in sibling directories whose names are
+    # string prefixes of each other (the run-time search path is a relative path between them)
+    out.append(('prefix-related-sibling-directories', [
+        _lib(0, 'shared', 'tools-support/n0sup', []),
+        _lib(1, 'shared', 'lib64/n1wide', [0], fcalls=[(0, 0, 'f')], gcalls=[(0, 0, 'g')]),
+        _lib(2, 'shared', 'a/bc/n2deep', [], lang='c++'),
+        _exe(3, 'tools/prog3', [0], [(0, 0, 'f'), (0, 0, 'g')]),
+        _exe(4, 'lib/tool4', [1], [(1, 1, 'f'), (1, 1, 'g')]),
+        _exe(5, 'a/b/prog5', [2, 0], [(2, 2, 'f'), (0, 0, 'g')]),
+        _lib(6, 'shared', 'lib/n6short', [1], fcalls=[(1, 1, 'f')], gcalls=[]),
+        _exe(7, 'lib6/prog7', [6], [(6, 6, 'f'), (6, 6, 'g')], lang='c++'),
     ]))
     # D12: C binaries (lang='c' given) above static C++ libraries, directly and through a
     # static C library: the C++ runtime must come after the archives that need it
